@@ -370,7 +370,7 @@ def main(tier, replay=None):
     return rep.finish({
         "evaluations": n_ev,
         "distinct_nontrivial": len(nontriv),
-        "traces_validated_against_impl": len(traces),
+        "traces_validated_against_impl": len(traces) + rep.cov.get("traces_validated_against_impl", 0),   # + lists replayed by the printer tier
         "rule": "contracts (kept unsimplified) with decimal numbers of <= 4 significant digits or arbitrary floats, opposite-term pairs (negated, equal, "
                 "unrelated constants) planted before or after their partner with other rows in between; four round trips each: machine dictionary "
                 "(bit-exact, ==), strings without re-simplification (multiset of rows = rows rounded to 4 significant digits), human file and machine "
